@@ -13,14 +13,15 @@ int g_steps;                 /* number of step calls so far */
 
 #define IN_TEXT(p) (__CPROVER_same_object((p), g_str) && __CPROVER_r_ok((p), 1) && g_str <= (p) && (p) <= g_str + g_n)
 
-/* one line: reads only inside the text, never beyond its NUL; fills *instr_data and nothing else */
+/* one line: reads only inside the text, never beyond its NUL; fills *instr_data and nothing else;
+ * the position advances exactly to the start of the next line (postcondition macro shared with the
+ * enforcement form str_to_instr__e in line_contracts.h) */
+#include "line_contracts.h"
 int str_to_instr__c(struct instr *instr_data, const char unfiltered_str[], int *read_len)
   __CPROVER_requires(__CPROVER_rw_ok(instr_data, sizeof(struct instr)) && __CPROVER_rw_ok(read_len, sizeof(int)))
-  __CPROVER_requires(IN_TEXT(unfiltered_str) && unfiltered_str < g_str + g_n)
-  __CPROVER_assigns(__CPROVER_object_whole(instr_data), *read_len)
-  __CPROVER_ensures(__CPROVER_return_value == EXIT_SUCCESS || __CPROVER_return_value == EXIT_FAILURE)
-  __CPROVER_ensures(1 <= *read_len && *read_len <= (g_str + g_n) - unfiltered_str)
-  __CPROVER_ensures(__CPROVER_return_value == EXIT_SUCCESS ==> (instr_data->key == SKIP || rec_inv(instr_data)));
+  __CPROVER_requires(IN_TEXT(unfiltered_str) && unfiltered_str < g_str + g_n && unfiltered_str[0] != '\0')
+  __CPROVER_assigns(__CPROVER_object_whole(instr_data), *read_len, g_eq_s2)
+  STR_TO_INSTR_POST(instr_data, unfiltered_str, read_len, (g_str + g_n) - unfiltered_str);
 
 #define LSTEP_PRE(al, I, buf_pos)                                                              \
   __CPROVER_requires(__CPROVER_rw_ok(al, sizeof(struct assemblyline)) && al->external && al->buffer_len >= 0) \
